@@ -400,6 +400,16 @@ def fix_starred_imports(source: str) -> str:
         elif not (name.startswith("__") and name.endswith("__")):  # __file__ is always there
             any_untraced_name = True
 
+    if any_untraced_name:
+        return  # A starred import may be what defines that name, whatever else it provides
+
+    # A starred import also provides the names that shadow a builtin, or that some
+    # inner scope binds as well: these are referenced, but not undefined.
+    for name in sorted(_get_referenced_names(root) - undefined_names):
+        trace_result = trace_origin(name, source)
+        if trace_result and core.match_template(trace_result.ast, template):
+            starred_import_name_mapping[trace_result.ast].add(name)
+
     for node, names in starred_import_name_mapping.items():
         if names:
             yield node, ast.ImportFrom(
@@ -407,9 +417,6 @@ def fix_starred_imports(source: str) -> str:
                 names=[ast.alias(name=name, asname=None) for name in sorted(names)],
                 level=0,
             )
-
-    if any_untraced_name:
-        return  # A starred import whose module cannot be read may be what defines that name
 
     # Remove remaining starred imports
     for node in core.filter_nodes(root.body, template):
